@@ -122,7 +122,7 @@ func (s *Sim) Tables() []TableInfo {
 
 // ModelFromSnapshot reconstructs a table model from the primary index of a snapshot (All).
 func ModelFromSnapshot(txn statedb.ReadTxn, tbl statedb.Table[*Obj]) *TableModel {
-	m := &TableModel{Objs: map[string]MObj{}, Rev: tbl.Revision(txn)}
+	m := &TableModel{Objs: map[string]MObj{}, Rev: tbl.Revision(txn), Pending: append([]string(nil), tbl.PendingInitializers(txn)...)}
 	for o, rev := range tbl.All(txn) {
 		m.Objs[string(o.ID)] = MObj{o, rev}
 	}
